@@ -687,9 +687,67 @@ func (c *c18) decCoins() {
 	}
 }
 
+// decCoinsScalar: a decimal coin set times / divided by a decimal: every coin is the Dec operation of
+// the same name on its amount (Mul, Quo round half to even; the Truncate variants round toward zero),
+// coins that become zero are dropped, the set stays sorted.
+func (c *c18) decCoinsScalar() {
+	rawAmts := []*big.Int{bigOne, big.NewInt(3), half18, new(big.Int).Add(ten18, bigOne), new(big.Int).Add(new(big.Int).Mul(big.NewInt(7), ten18), big.NewInt(7)), new(big.Int).Sub(ten18, bigOne)}
+	rawMul := []*big.Int{big.NewInt(0), bigOne, big.NewInt(333333333333333333), half18, new(big.Int).Mul(big.NewInt(6), pow(10, 17)), ten18, new(big.Int).Mul(big.NewInt(15), pow(10, 17)), new(big.Int).Add(ten18, bigOne), new(big.Int).Neg(half18)}
+	denoms := []string{"aaa", "bbb"}
+	type opT struct {
+		name string
+		f    func(cs sdk.DecCoins, d sdk.Dec) sdk.DecCoins
+		want func(a, d *big.Int) *big.Int
+		div  bool
+	}
+	ops := []opT{
+		{"DecCoins.MulDec", func(cs sdk.DecCoins, d sdk.Dec) sdk.DecCoins { return cs.MulDec(d) }, func(a, d *big.Int) *big.Int { return ratHalfEven(new(big.Int).Mul(a, d), ten18) }, false},
+		{"DecCoins.MulDecTruncate", func(cs sdk.DecCoins, d sdk.Dec) sdk.DecCoins { return cs.MulDecTruncate(d) }, func(a, d *big.Int) *big.Int { return ratTrunc(new(big.Int).Mul(a, d), ten18) }, false},
+		{"DecCoins.QuoDec", func(cs sdk.DecCoins, d sdk.Dec) sdk.DecCoins { return cs.QuoDec(d) }, func(a, d *big.Int) *big.Int { return ratHalfEven(new(big.Int).Mul(a, ten18), d) }, true},
+		{"DecCoins.QuoDecTruncate", func(cs sdk.DecCoins, d sdk.Dec) sdk.DecCoins { return cs.QuoDecTruncate(d) }, func(a, d *big.Int) *big.Int { return ratTrunc(new(big.Int).Mul(a, ten18), d) }, true},
+	}
+	for _, a0 := range rawAmts {
+		for _, a1 := range rawAmts {
+			cs := sdk.DecCoins{sdk.NewDecCoinFromDec(denoms[0], mkDec(a0)), sdk.NewDecCoinFromDec(denoms[1], mkDec(a1))}
+			for _, m := range rawMul {
+				for _, op := range ops {
+					if op.div && m.Sign() == 0 {
+						continue
+					}
+					if m.Sign() < 0 {
+						continue // negative results are not coins
+					}
+					c.eval++
+					rep := map[string]string{"op": op.name, "coins": cs.String(), "d": mkDec(m).String()}
+					var got sdk.DecCoins
+					if p, msg := try(func() { got = op.f(cs, mkDec(m)) }); p {
+						c.fail("C18/"+op.name+"/panic", fmt.Sprintf("(%s).%s(%s) panicked: %s", cs, op.name, mkDec(m), msg), rep)
+						continue
+					}
+					n := 0
+					for i, a := range []*big.Int{a0, a1} {
+						w := op.want(a, m)
+						if w.Sign() != 0 {
+							n++
+						}
+						if got.AmountOf(denoms[i]).Int.Cmp(w) != 0 {
+							c.fail("C18/"+op.name+"/wrong-result", fmt.Sprintf("(%s).%s(%s) = %s: %s should be raw %s", cs, op.name, mkDec(m), got, denoms[i], w), rep)
+							break
+						}
+					}
+					if len(got) != n {
+						c.fail("C18/"+op.name+"/not-canonical", fmt.Sprintf("(%s).%s(%s) = %s has %d entries, %d are non-zero", cs, op.name, mkDec(m), got, len(got), n), rep)
+					}
+				}
+			}
+		}
+	}
+}
+
 func (c *c18) coins() {
 	c.newCoinsWithZeros()
 	c.decCoins()
+	c.decCoinsScalar()
 	amts := []int64{0, 1, 2, 5}
 	var sets []coinSet
 	for _, x := range amts {
@@ -865,7 +923,7 @@ func C18(tier string) int {
 	c.coins()
 	r.Set("evaluations", c.eval)
 	r.Set("distinct_nontrivial", len(c.kinds))
-	r.Set("rule", "every ordered pair of the boundary operand alphabets (Int, Uint, raw 18-decimal Dec, Dec x Int, coin sets over 3 denominations x amounts {absent,1,2,5}) through every binary operation, every operand through every unary operation/conversion/codec; distinct_nontrivial counts distinct (operation, in-range|overflow) classes that occurred")
+	r.Set("rule", "every ordered pair of the boundary operand alphabets (Int, Uint, raw 18-decimal Dec, Dec x Int, coin sets over 3 denominations x amounts {absent,1,2,5}; decimal coin sets over 4 denominations x {absent,0.5,2.0}, and 36 two-coin decimal sets x 8 decimal factors through MulDec / MulDecTruncate / QuoDec / QuoDecTruncate) through every binary operation, every operand through every unary operation/conversion/codec; distinct_nontrivial counts distinct (operation, in-range|overflow) classes that occurred")
 	var ks []string
 	for k := range c.kinds {
 		ks = append(ks, k)
